@@ -12,7 +12,6 @@ from typing import (
     List,
     Optional,
     Sequence,
-    Set,
     Tuple,
 )
 
@@ -418,6 +417,11 @@ class AhocorasickTokenizer(Tokenizer):
         self.unfiltered_extractors = set(
             e for e in self.extractors if not e.strings
         )
+        # Remember the position of each extractor, so the filtered extractors
+        # can be returned in a stable order
+        self._extractor_order = {
+            id(e): i for i, e in enumerate(self.extractors)
+        }
         # Build a pyahocorasick filter for all case-sensitive extractors
         self.case_sensitive_filter = self.make_ahocorasick_filter(
             (s, e)
@@ -433,7 +437,7 @@ class AhocorasickTokenizer(Tokenizer):
             for s in e.strings
         )
 
-    def get_extractors(self, text: str) -> Set[TokenExtractor]:
+    def get_extractors(self, text: str) -> List[TokenExtractor]:
         """Override get_extractors() to filter out extractors
         that can't possibly match."""
         unique_extractors = set(self.unfiltered_extractors)
@@ -446,7 +450,12 @@ class AhocorasickTokenizer(Tokenizer):
                 text.lower()
             ):
                 unique_extractors.update(extractors)
-        return unique_extractors
+        # Matches of different extractors can tie, and ties are resolved by
+        # extractor order: don't let that depend on set iteration order,
+        # which changes with the hash seed and the other extractors selected
+        return sorted(
+            unique_extractors, key=lambda e: self._extractor_order[id(e)]
+        )
 
     @staticmethod
     def make_ahocorasick_filter(
